@@ -8,6 +8,7 @@ rows with arbitrary per-channel AP/LF gains), every saved-channel count and sync
 import IblVerif.Lemmas.MetaRoundTrip
 import IblVerif.Lemmas.MetaGains
 import IblVerif.Lemmas.MetaTables
+import IblVerif.Lemmas.MetaAssemblyC09
 
 namespace IblVerif.C09
 open IblVerif.Meta
@@ -268,5 +269,109 @@ theorem gain_vector_nidq (d : Dict) (mn ma xa dw : Nat) (gmn gma : Num) (i2v : F
 /-- Non-vacuity of the nidq hypotheses. -/
 example : nidqCount [(kMnMaXaDw, .list [.fin (2 * U), .fin 0, .fin U, .fin U])] 0 = .ok 2 :=
   ok_of_toOption (by decide +kernel)
+
+/-! ## Assembly of the gain vectors, entry by entry (every channel count, every sync count ≥ 0) -/
+
+/-- **Assembly `np.hstack((per-channel part, np.ones(nsync)))`.**  For every per-channel column `col` and EVERY `nsy ≥ 0`
+(0 included: a recording saved without its sync word): the vector has `col.length + nsy` entries, entry `i < col.length` is the
+`i`-th channel gain, and each of the last `nsy` entries is 1.  For `nsy = 0` the third clause is empty and the second says that
+NO channel gain is overwritten. -/
+theorem gain_assembly (col : List Float32) (nsy : Nat) :
+    (hstackSync col nsy).length = col.length + nsy ∧
+    (∀ i (h : i < col.length), (hstackSync col nsy).IsAt i col[i]) ∧
+    (∀ j, j < nsy → (hstackSync col nsy).IsOneAt (col.length + j)) :=
+  ⟨hstackSync_length col nsy, fun i h => hstackSync_channel col nsy i h, fun j h => hstackSync_sync col nsy j h⟩
+
+/-- **NP1-family vectors entry by entry.**  For every rendered IMRO table, every saved-channel count `nchn ≤ rows` and every
+sync count `nsy ≥ 0`: `_conversion_sample2v_from_meta` returns an "lf" and an "ap" vector of `nchn + nsy` entries; entry
+`i < nchn` of "ap" is `float32(1)/float32(AP gain of row i) · float32(int2volt)`, of "lf" the same with the LF gain of row `i`;
+entries `nchn … nchn + nsy − 1` are 1. -/
+theorem gain_vector_entries (hdr : Str) (rows : List ImroRow) (nchn nsy : Nat) (i2v : Float) (hh : ' ' ∉ hdr)
+    (hn : nchn ≤ rows.length) :
+    ∃ lf ap, np1Gains (renderImro hdr rows) (nchn : Int) nsy i2v = .ok [(.lf, lf), (.ap, ap)] ∧
+      lf.length = nchn + nsy ∧ ap.length = nchn + nsy ∧
+      (∀ i (h : i < nchn), ap.IsAt i (gainOf32 (f32OfNat (rows[i]'(by omega)).ap) i2v) ∧
+                           lf.IsAt i (gainOf32 (f32OfNat (rows[i]'(by omega)).lf) i2v)) ∧
+      (∀ j, j < nsy → ap.IsOneAt (nchn + j) ∧ lf.IsOneAt (nchn + j)) := by
+  obtain ⟨h1, h2⟩ := gain_vector_shape_and_source hdr rows nchn nsy i2v hh
+  obtain ⟨hla, hll⟩ := h2 hn
+  refine ⟨_, _, h1, hll, hla, ?_, ?_⟩
+  · intro i h
+    have hlen : ∀ f : ImroRow → Float32, ((rows.take nchn).map f).length = nchn := by
+      intro f; simp [Nat.min_eq_left hn]
+    have key : ∀ f : ImroRow → Float32, (hstackSync ((rows.take nchn).map f) nsy).IsAt i (f (rows[i]'(by omega))) := by
+      intro f
+      have := hstackSync_channel ((rows.take nchn).map f) nsy i (by rw [hlen]; exact h)
+      simpa using this
+    exact ⟨key (fun r => gainOf32 (f32OfNat r.ap) i2v), key (fun r => gainOf32 (f32OfNat r.lf) i2v)⟩
+  · intro j h
+    have key : ∀ f : ImroRow → Float32, (hstackSync ((rows.take nchn).map f) nsy).IsOneAt (nchn + j) := by
+      intro f
+      have := hstackSync_sync ((rows.take nchn).map f) nsy j h
+      simpa [Nat.min_eq_left hn] using this
+    exact ⟨key _, key _⟩
+
+/-- Non-vacuity, the sync-less case: two rows, both saved, `nsy = 0` — the vector is the two channel gains and nothing else. -/
+example (i2v : Float) : (hstackSync [gainOf32 (f32OfNat 500) i2v, gainOf32 (f32OfNat 250) i2v] 0).length = 2 := by
+  simp [hstackSync_length]
+
+/-- **NP2 vectors entry by entry**: `nchn` entries `float32(int2volt/80)·1`, then `nsy` ones — for every `nsy ≥ 0`. -/
+theorem gain_vector_np2_entries (nchn nsy : Nat) (i2v : Float) :
+    ∃ g, np2Gains (nchn : Int) nsy i2v = .ok [(.lf, g), (.ap, g)] ∧ g.length = nchn + nsy ∧
+      (∀ i, i < nchn → g.IsAt i ((i2v / 80.0).toFloat32 * 1.0)) ∧ (∀ j, j < nsy → g.IsOneAt (nchn + j)) := by
+  obtain ⟨h1, h2⟩ := gain_vector_np2 nchn nsy i2v
+  refine ⟨_, h1, h2, ?_, ?_⟩
+  · intro i h
+    simp only [Gains.IsAt]
+    rw [List.getElem?_append_left (by simpa using h)]
+    simp [List.getElem?_replicate, h]
+  · intro j h
+    simp only [Gains.IsOneAt]
+    rw [List.getElem?_append_right (by simp)]
+    simp [List.getElem?_replicate, h]
+
+/-- **Why the tail must be APPENDED, not reset.**  Writing the sync tail as `v[-nsync:] = 1` on the assembled vector is the
+same vector for every `nsync > 0`, and overwrites EVERY channel gain with 1 for `nsync = 0` (Python's `v[-0:]` is the whole
+vector) — the defect class of the seeded changes C01_g / C09_a / C09_e / C09_f / C09_g, excluded by `gain_assembly`. -/
+theorem reset_tail_counterexample (col : List Float32) :
+    (∀ k, 0 < k → resetTail (col ++ List.replicate k 1.0) k 1.0 = col ++ List.replicate k 1.0) ∧
+    resetTail (col ++ List.replicate 0 1.0) 0 1.0 = List.replicate col.length 1.0 :=
+  ⟨fun k hk => resetTail_pos col k 1.0 hk, resetTail_zero col 1.0⟩
+
+/-! ## Shapes `read_meta_data` can return -/
+
+/-- **A parsed numeric value is never a one-element list** ("scalars should not be nested"): for every file `t` that parses,
+every list-valued entry has length ≠ 1.  Consequence: a dictionary holding `[x]` is not in the image of `read_meta_data`, so the
+property's round trip (parse → write → parse) never meets the asymmetry of `singleton_list_counterexample`. -/
+theorem parse_never_singleton_list (t : Str) (d : Dict) (h : parse t = .ok d) (k : Str) (xs : List Num)
+    (he : (k, Val.list xs) ∈ d) : xs.length ≠ 1 := by
+  unfold parse at h
+  split at h
+  · simp at h
+  · rename_i d0 hpl
+    simp only at h
+    split at h
+    · simp at h
+    · rename_i sv hsv
+      simp at h
+      have hinv : Inv d0 := parseLines_inv _ [] d0 hpl (splitlines_noBreak _) ⟨by simp [keys], by simp⟩
+      rw [← h] at he
+      rcases mem_set _ _ _ _ he with h1 | h1
+      · rcases serialVal_cases _ sv hsv with h0 | ⟨n, h0⟩ <;> simp [h0] at h1
+      · rcases mem_set _ _ _ _ h1 with h2 | h2
+        · have : versionVal d0 = Val.list xs := (Prod.mk.inj h2).2.symm
+          unfold versionVal at this
+          split at this <;> simp at this
+        · obtain ⟨s, _, hp⟩ := (hinv.2 _ h2).2
+          exact parseVal_list_length s xs hp
+
+example : (parse "a=5\nb=1,2\n".toList).toOption.bind (·.get? "a".toList) = some (.num (.fin (5 * U))) := by decide +kernel
+
+/-- **Known asymmetry outside the property's quantifier**: `write_meta_data` of a one-element list `[5.0]` writes `a=5`, which
+`read_meta_data` returns as the SCALAR 5.0, not as the list. -/
+theorem singleton_list_counterexample :
+    (printMeta [("a".toList, .list [.fin (5 * U)])]).toOption = some "a=5\n".toList ∧
+    (parse "a=5\n".toList).toOption.bind (·.get? "a".toList) = some (.num (.fin (5 * U))) := by
+  constructor <;> decide +kernel
 
 end IblVerif.C09
